@@ -36,6 +36,28 @@ P = {
          '2 of 300 captured specs are excluded because defect F4 changed their dependency graph (tools/filter_golden.py)',
     technique='Lean 4 frozen executable spec + golden-corpus and differential correspondence',
     ref='§4 C12'),
+ 'C02': dict(
+    text='Lean 4 theorems over TCV.Key/TCV.PVal: the key text (hence the key, for every hash) is invariant under any permutation of '
+         'parameter declarations, input tasks and mapping items, under adding ignored or default-valued parameters, under the '
+         'values substituted for placeholders and under mounting beneath any namespace (own namespace stripped from input names). '
+         'Correspondence: generated configurations and composed computation-preserving rewritings (10 families) built on the real '
+         'code: every task keeps its location (metamorphic oracle) and literal keys equal the model; same chain in fresh '
+         'interpreters with different PYTHONHASHSEED.',
+    note='partial: parameter objects are opaque texts in the model; their argument-order dependence is known finding K2 (replayed); '
+         'builder-level invariance (rename/move files, config vs context) is carried by the correspondence, the theorems are at key-text level; '
+         'process independence is a runtime clause established by correspondence only',
+    technique='Lean 4 proof (sorting/permutation invariance) + metamorphic differential correspondence',
+    ref='§4 C02'),
+ 'C03': dict(
+    text='Lean 4: repr_from_instantiation is an injective prefix code on well-formed quote-free JSON-like values up to mapping order '
+         '(reprInst_injective_partial, by mutual structural induction, any nesting depth); the negation of the full statement is proved '
+         'on the K1 witness; equal keys force equal key texts for a collision-free hash. Correspondence: differing value pairs '
+         '(mutations, look-alikes, adversarial splices of quotes/separators) at distance 0-5 upstream and differing wirings on the real '
+         'code: literal keys equal the model, and the oracle demands different locations; collisions inside the K1 class are reported as KNOWN-FINDING.',
+    note='partial (K1): hypothesis QuoteFree; sha256[:32] collision-freeness assumed; injectivity of the whole key text '
+         '(names/separators) and of Python-escaped strings is exercised by the correspondence, not yet a theorem; parameter objects opaque',
+    technique='Lean 4 proof (prefix-code induction) + proved counterexample + differential correspondence',
+    ref='§4 C03'),
 }
 
 checks, na = [], []
